@@ -24,6 +24,21 @@ SKIP_MODULES = {"chuk_mcp.protocol.mcp_pydantic_base": "the base class's own gen
 SKIP_FUNCS = {("chuk_mcp.protocol.messages.json_rpc_message", "model_dump"): "generic pass-through of the caller's kwargs in the legacy envelope/wrapper", ("chuk_mcp.protocol.messages.json_rpc_message", "model_dump_json"): "generic pass-through"}
 
 
+def _ast_keywords(P: Project, mod: str, line: int, name: str) -> Set[str]:
+    """keyword names of the dump call at that position in the normalised tree (where `**OPTIONS` with a constant mapping
+    has been spelled out, which the type checker — run on the source text — does not see)"""
+    m = P.modules.get(mod)
+    out: Set[str] = set()
+    if m is None:
+        return out
+    for n in ast.walk(m.tree):
+        if isinstance(n, ast.Call) and isinstance(n.func, ast.Attribute) and n.func.attr == name.split(".")[-1] and getattr(n, "lineno", None) == line:
+            for k in n.keywords:
+                if k.arg and isinstance(k.value, ast.Constant) and k.value.value is True:
+                    out.add(k.arg)
+    return out
+
+
 def check(P: Project, R: Report) -> None:
     R.rule("R1", "wire names at library serialisers (type-resolved): every model_dump/model_dump_json call in library code whose receiver type (mypy) is, or may contain, a class with an aliased field passes by_alias=True; Any-typed receivers are a frozen table with reasons")
     R.rule("R2", "unknown members survive: no model class sets `extra` to anything but 'allow'; the fallback's constructor keeps leftover keys and its dump iterates the instance dict")
@@ -69,7 +84,7 @@ def check(P: Project, R: Report) -> None:
         R.call_sites += 1
         where = f"{c['file']}:{c['line']}"
         rt = c["receiver_type"] or "None"
-        by_alias = "by_alias" in (c["arg_names"] or [])
+        by_alias = "by_alias" in (c["arg_names"] or []) or "by_alias" in _ast_keywords(P, mod, c["line"], c["name"])
         if rt in ("Any", "None") or rt.startswith("Any"):
             key = (mod, fn)
             seen_any.add(key)
@@ -149,6 +164,14 @@ def check(P: Project, R: Report) -> None:
         if isinstance(n, ast.Assign) and ast.unparse(n.targets[0]) == "model_config" and isinstance(n.value, ast.Dict):
             pyd_cfg = {k.value: (v.value if isinstance(v, ast.Constant) else ast.unparse(v)) for k, v in zip(n.value.keys, n.value.values) if isinstance(k, ast.Constant)}
             break
+        if isinstance(n, ast.Assign) and ast.unparse(n.targets[0]) == "model_config":
+            # a named configuration constant (possibly imported): folded
+            from ..consteval import try_fold as _tf
+
+            v_ = _tf(P, base, n.value.args[0] if isinstance(n.value, ast.Call) and n.value.args and not n.value.keywords else n.value)
+            if isinstance(v_, dict):
+                pyd_cfg = dict(v_)
+                break
     R.need(pyd_cfg is not None, "anchor: Pydantic-branch model_config not found")
     R.ob("R2", "base config (Pydantic): extra='allow'", pyd_cfg.get("extra") == "allow", base.rel, f"{pyd_cfg}")
     R.ob("R3", "base config (Pydantic): populate_by_name", pyd_cfg.get("populate_by_name") is True, base.rel, f"{pyd_cfg}")
@@ -160,6 +183,8 @@ def check(P: Project, R: Report) -> None:
     R.ob("R2", "fallback constructor merges leftover keys into the instance", keeps, f"{base.rel}:{bfv.lineno}", "")
     dump = fbm["model_dump"]
     iters = [n for n in walk_local(dump) if isinstance(n, ast.For) and ast.unparse(n.iter) == "self.__dict__.items()"]
+    # … or a comprehension over the same items
+    iters += [g for n in ast.walk(dump) if isinstance(n, (ast.DictComp, ast.ListComp, ast.GeneratorExp)) for g in n.generators if ast.unparse(g.iter) == "self.__dict__.items()"]
     R.ob("R2", "fallback dump iterates the instance dict (extras included)", len(iters) == 1, f"{base.rel}:{dump.lineno}", "")
     # ------------------------------------------------------------------ R3
     n_alias = 0
@@ -182,7 +207,7 @@ def check(P: Project, R: Report) -> None:
     pa = fbm["_process_aliases"]
     inv = any(isinstance(n, ast.DictComp) and ast.unparse(n.key) != ast.unparse(n.value) and "__field_aliases__" in ast.unparse(n) for n in walk_local(pa))
     R.ob("R3", "fallback maps alias → field on input", inv, f"{base.rel}:{pa.lineno}", "")
-    out_alias = any(isinstance(n, ast.If) and "by_alias" in ast.unparse(n.test) and "__field_aliases__" in ast.unparse(n) for n in walk_local(dump))
+    out_alias = any(isinstance(n, (ast.If, ast.IfExp)) and "by_alias" in ast.unparse(n.test) and "__field_aliases__" in ast.unparse(n) for n in ast.walk(dump))
     R.ob("R3", "fallback emits the alias under by_alias", out_alias, f"{base.rel}:{dump.lineno}", "")
     # class-level caches of the fallback must be keyed by class identity: class *names* are not unique in this package
     names = {}
